@@ -89,6 +89,10 @@ pub struct Case {
 }
 
 fn str_val(o: &Opt, src: &str, variant: u8) -> String {
+    // an optional string explicitly set to the empty string is a value like any other ("no script", "no prefix")
+    if matches!(o.kind, Kind::OptStr) && variant % 16 == 13 {
+        return String::new();
+    }
     let specials = ["with space", "quote'q", "dq\"x", "colon: y", "#hash", "ünï", "a=b", "[br]", "{x}", "100", "true", "~"];
     if variant % 4 == 3 {
         let sp = specials[(variant as usize / 4) % specials.len()];
@@ -145,6 +149,13 @@ fn hooks_val(src: &str, variant: u8) -> BTreeMap<String, String> {
     if variant % 2 == 0 {
         // same event from both sources: the command line wins for that event
         m.insert("peer_connected".to_string(), format!("pc-{}", src));
+    }
+    if variant % 8 >= 5 {
+        // an event silenced with an empty script (overrides the generic hook for that event)
+        m.insert(format!("silenced_{}", src), String::new());
+        if variant % 8 == 7 {
+            m.insert("peer_connected".to_string(), String::new());
+        }
     }
     m
 }
